@@ -2043,7 +2043,7 @@ static Rational MPSgetRHS(Rational left, Rational right)
    else if(double(right) <  double(infinity))
       rhsval = right;
    else
-      throw SPxInternalCodeException("XMPSWR01 This should never happen.");
+      rhsval = -infinity;   // free row, written as G row
 
    return rhsval;
 }
@@ -2117,7 +2117,7 @@ void SPxLPBase<Rational>::writeMPS(
       else if(double(rhs(i)) <  double(infinity))
          indicator = "L";
       else
-         throw SPxInternalCodeException("XMPSWR02 This should never happen.");
+         indicator = "G";   // free row: a x >= -infinity
 
       MPSwriteRecord(p_output, indicator, MPSgetRowName(*this, i, p_rnames, name), spxout);
    }
